@@ -1,4 +1,103 @@
+(* C19/Properties.v — the property theorems.  Repaired = behaviour after fixes/C19_*.patch (full theorems);
+   Defective = today's /repo (the _refuted witnesses).  Specification-side definitions (item, enc, wf_pkt,
+   frame4_ok, ...) live at the top of the sections of Proofs.v. *)
 From OV Require Import Common.Base C19.Model C19.Proofs.
-Theorem C19_zeros_length : forall n, length (zeros n) = n.
-Proof. exact zeros_length. Qed.
-Print Assumptions C19_zeros_length.
+Open Scope N_scope.
+
+(* ---------------------------------------------------------------- checksums *)
+(* the uint32 fold loop "for sum > 0xFFFF { sum = sum>>16 + sum&0xFFFF }" terminates within 3 rounds and
+   computes the ones-complement (mod 65535) representative in 1..0xFFFF *)
+Theorem C19_ones_complement : forall s, 0 < s -> s < 4294967296 ->
+  exists r, fold_loop fold_fuel s = Ok r /\ 0 < r /\ r <= 65535 /\ r mod 65535 = s mod 65535.
+Proof. exact fold_loop_spec. Qed.
+Print Assumptions C19_ones_complement.
+
+(* BuildIPv4UDPFrame: for every payload that fits the 16-bit length the frame exists (no panic, no fuel
+   exhaustion), total/UDP lengths are consistent, the IPv4 header checksum and the UDP checksum verify under the
+   RFC 1071 reference verifier, the payload is carried unchanged; after the fix the UDP checksum field is never 0 *)
+Theorem C19_ipv4_frame_verifies : forall v src dst sp dp payload s4 d4,
+  to4 src = Some s4 -> to4 dst = Some d4 -> ip_ok src -> ip_ok dst -> bytes_ok payload ->
+  sp < 65536 -> dp < 65536 -> blen payload <= 65507 ->
+  exists f, build_ipv4_udp_frame v src dst sp dp payload = Ok (Some f) /\ frame4_ok f payload /\
+            (v = Repaired -> firstn 2 (skipn 26 f) <> [0; 0]).
+Proof. exact build_ipv4_udp_frame_ok. Qed.
+Print Assumptions C19_ipv4_frame_verifies.
+
+Example C19_ipv4_frame_nonvacuous :
+  exists f, build_ipv4_udp_frame Repaired (Some [10;0;0;1]) (Some [255;255;255;255]) 67 68 [1;2;3] = Ok (Some f) /\
+            length f = 31%nat /\ verifies (firstn 20 f) = true /\ verifies (pseudo4 f ++ skipn 20 f) = true.
+Proof. eexists. vm_compute. repeat split. Qed.
+Print Assumptions C19_ipv4_frame_nonvacuous.
+
+(* today's code sends a UDP checksum that computes to zero as 0x0000, i.e. "no checksum" (RFC 768) *)
+Theorem C19_udp4_checksum_nonzero_refuted :
+  exists src dst sp dp payload f, bytes_ok payload /\
+    build_ipv4_udp_frame Defective (Some src) (Some dst) sp dp payload = Ok (Some f) /\ firstn 2 (skipn 26 f) = [0; 0].
+Proof.
+  exists [10;0;0;1], [255;255;255;255], 67, 68, [245; 82]. eexists. split.
+  - repeat constructor.
+  - vm_compute. split; reflexivity.
+Qed.
+Print Assumptions C19_udp4_checksum_nonzero_refuted.
+
+Theorem C19_ipv6_frame_verifies : forall src dst sp dp payload s16 d16,
+  to16 src = Some s16 -> to16 dst = Some d16 -> ip_ok src -> ip_ok dst -> bytes_ok payload ->
+  sp < 65536 -> dp < 65536 -> blen payload <= 65527 ->
+  exists f, build_ipv6_udp_frame src dst sp dp payload = Ok (Some f) /\ frame6_ok f payload /\
+            firstn 2 (skipn 46 f) <> [0; 0].
+Proof. exact build_ipv6_udp_frame_ok. Qed.
+Print Assumptions C19_ipv6_frame_verifies.
+
+(* ---------------------------------------------------------------- option 82 *)
+(* InsertOption82 (all three policies) and StripOption82 on every well-formed options area (pads and complete
+   options in any order, any number of pre-existing option 82, END, arbitrary bytes after END): byte-exact result *)
+Theorem C19_opt82_insert_bytes : forall hdr its trail o82 pol, length hdr = 240%nat -> Forall item_ok its ->
+  insert_option82 Repaired (wf_pkt hdr its trail) o82 pol =
+  Ok (match pol with
+      | Replace => replaced82 hdr its o82 trail
+      | Drop => wf_pkt hdr (drop_code 82 its) trail
+      | Keep => if existsb (is_code 82) its then wf_pkt hdr its trail else replaced82 hdr its o82 trail
+      end).
+Proof. exact insert_option82_repaired. Qed.
+Print Assumptions C19_opt82_insert_bytes.
+
+Theorem C19_opt82_strip_bytes : forall hdr its trail, length hdr = 240%nat -> Forall item_ok its ->
+  strip_option82 Repaired (wf_pkt hdr its trail) = Ok (wf_pkt hdr (drop_code 82 its) trail).
+Proof. exact strip_option82_repaired. Qed.
+Print Assumptions C19_opt82_strip_bytes.
+
+(* faithfulness, stated with the independent RFC 2131 decoder: the fixed header (xid, chaddr, ...) is untouched,
+   all other options keep their order and value, option 82 appears exactly once with the relay's value, END and
+   the bytes after it are preserved *)
+Theorem C19_opt82_replace_faithful : forall hdr its trail d, length hdr = 240%nat -> Forall item_ok its -> (length d <= 255)%nat ->
+  exists out, insert_option82 Repaired (wf_pkt hdr its trail) (82 :: blen d :: d) Replace = Ok out /\
+    firstn 240 out = hdr /\
+    ref_options out = (filter (not_code 82) (opts_of its) ++ [(82, d)], EndSeen trail).
+Proof. exact opt82_replace_faithful. Qed.
+Print Assumptions C19_opt82_replace_faithful.
+
+Example C19_opt82_nonvacuous :
+  length ex_hdr = 240%nat /\ Forall item_ok ex_two82 /\
+  exists out, insert_option82 Repaired (wf_pkt ex_hdr ex_two82 [0;0]) [82;3;1;1;90] Replace = Ok out /\
+              ref_options out = ([(53, [1]); (82, [1;1;90])], EndSeen [0;0]).
+Proof. split; [reflexivity|]. split; [exact ex_two82_ok|]. eexists. vm_compute. split; reflexivity. Qed.
+Print Assumptions C19_opt82_nonvacuous.
+
+(* today's code: with two pre-existing option 82 the "replace" policy leaves one of the client's in place *)
+Theorem C19_opt82_replace_refuted :
+  exists hdr its trail d out, length hdr = 240%nat /\ Forall item_ok its /\ (length d <= 255)%nat /\
+    insert_option82 Defective (wf_pkt hdr its trail) (82 :: blen d :: d) Replace = Ok out /\
+    count_opt 82 (fst (ref_options out)) = 2%nat /\ opt_value 82 (fst (ref_options out)) <> d.
+Proof.
+  exists ex_hdr, ex_two82, [], [1;1;90]. eexists. split; [reflexivity|]. split; [exact ex_two82_ok|].
+  split; [cbn; lia|]. vm_compute. split; [reflexivity|]. split; [reflexivity|discriminate].
+Qed.
+Print Assumptions C19_opt82_replace_refuted.
+
+Theorem C19_opt82_strip_refuted :
+  exists hdr its trail out, length hdr = 240%nat /\ Forall item_ok its /\
+    strip_option82 Defective (wf_pkt hdr its trail) = Ok out /\ count_opt 82 (fst (ref_options out)) = 1%nat.
+Proof.
+  exists ex_hdr, ex_two82, []. eexists. split; [reflexivity|]. split; [exact ex_two82_ok|]. vm_compute. split; reflexivity.
+Qed.
+Print Assumptions C19_opt82_strip_refuted.
